@@ -612,6 +612,34 @@ def check_C09(tier, ev):
     mc_and_replay(ev, "mc/MC_Chain.tla", f"mc/MC_Chain_funds_{tier}.cfg", "chain", 3400, [], coverage=False,
                   env={"MTV_FOCUS": "reads.supply,post.supply,reads.bank,reads.bankf,post.bank", "MTV_ALWAYS": ""},
                   need_features=["funds"])
+    if tier == "thorough":
+        apalache_inductive(ev, "BankInd.tla", "Init", "IndInit", "IndInv")
+
+
+def apalache_inductive(ev, module, base_init, step_init, inv, timeout=900):
+    """design-level extra, unbounded in the integers: Apalache discharges `inv` as an inductive invariant of `module`
+    (Init => inv at length 0; inv /\\ Next => inv' at length 1). A refutation is an error of the specification (exit 2),
+    not of the code; a timeout is recorded and does not fail the check (the TLC stages decide the property)."""
+    out = os.path.join(OUT, f"{ev.pid}-apalache")
+    d = os.path.join(ROOT, "spec", "apalache")
+    res = {}
+    for name, init, length in (("base", base_init, 0), ("step", step_init, 1)):
+        t = time.time()
+        try:
+            p = sh(["apalache-mc", "check", f"--init={init}", f"--inv={inv}", f"--length={length}", f"--out-dir={out}", module], cwd=d, timeout=timeout)
+        except ToolError:
+            res[name] = "not completed (timeout)"
+            continue
+        finally:
+            subprocess.run(["rm", "-rf", out])
+        txt = p.stdout + p.stderr
+        if "The outcome is: NoError" in txt:
+            res[name] = f"proved in {time.time() - t:.0f}s"
+        elif "The outcome is: Error" in txt:
+            raise ToolError(f"Apalache refutes {inv} of {module} ({name} case): the specification is wrong\n" + txt[-1500:])
+        else:
+            res[name] = "not completed (tool error)"
+    ev.runs.append({"stage": f"Apalache: {inv} of {module} as an inductive invariant (amounts unbounded)", **res})
 
 
 # ---- properties decided on the Chain specification -------------------------------------------
